@@ -171,6 +171,12 @@ def templates(tier, seed):
         T.append((f"setskip:{v}{w}", f"set Q0 {v}\nset R0 77770\nbeq R0 0 SKIP\nset Q0 {w}\nx Q0\nSKIP:\nset Q0 {w}\nh Q0\nset Q0 {v}\nt Q0\n"))
         T.append((f"setloop:{v}{w}", f"set Q0 {v}\nset R0 0\nLOOP:\nbeq R0 2 END\nset Q0 {v}\nh Q0\nset Q0 {w}\nx Q0\nadd R0 R0 1\njmp LOOP\nEND:\nset Q0 {w}\nz Q0\n"))
         T.append((f"setskip2:{v}{w}", f"set Q0 {v}\nset Q1 {w}\nset R0 77770\nbne R0 0 SKIP\nset Q1 {v}\nset Q0 {w}\ncnot Q0 Q1\nSKIP:\nset Q0 {w}\nset Q1 {v}\ncphase Q0 Q1\n"))
+    # unconditional jumps whose target lies behind expanded gates (forward over a block, and a loop head that follows a gate)
+    for g in ("h", "cnot", "cphase"):
+        gl = f"{g} Q0 Q1" if g != "h" else "h Q0"
+        for a, b in ((0, 1), (1, 2)):
+            T.append((f"jmpfwd:{g}@{a}{b}", f"set Q0 {a}\nset Q1 {b}\n{gl}\njmp OVER\nx Q0\nOVER:\ny Q1\n{gl}\n"))
+            T.append((f"jmploop:{g}@{a}{b}", f"set Q0 {a}\nset Q1 {b}\n{gl}\nset R0 0\nHEAD:\nbeq R0 2 END\nt Q1\n{gl}\nadd R0 R0 1\njmp HEAD\nEND:\nz Q0\n"))
     # Q register written by load (recorded finding: the transpiler only tracks `set`)
     T.append(("load:single", "set R0 1\narray R0 @0\nset R1 0\nset R2 1\nstore R2 @0[R1]\nload Q0 @0[R1]\nh Q0\n"))
     T.append(("load:two", "set R0 1\narray R0 @0\nset R1 0\nset R2 2\nstore R2 @0[R1]\nset Q0 1\nload Q1 @0[R1]\ncnot Q0 Q1\n"))
